@@ -25,9 +25,13 @@ os.unlink(out)
 stable = set(b["stable_pass"])
 if extra:
     stable = {s for s in stable if s in passed or s in failed}
-missing = sorted(stable - passed)
-print(f"ran in {d}: passed={len(passed)} failed={len(failed)} stable_pass={len(stable)} regressed={len(missing)}")
+missing = sorted(s for s in stable - passed if s in failed)
+notrun = sorted(s for s in stable - passed if s not in failed)
+print(f"ran in {d}: passed={len(passed)} failed={len(failed)} stable_pass={len(stable)} regressed={len(missing)} "
+      f"stable-but-skipped/xfailed={len(notrun)} (hash-seed dependent parametrised ids, e.g. test_swap_n3 envelopeN)")
 for m in missing[:40]:
-    print("  REGRESSED:", m, "(failed)" if m in failed else "(not run/skipped)")
+    print("  REGRESSED:", m, "(failed)")
+for m in notrun[:10]:
+    print("  note: not run/skipped/xfailed this time:", m)
 print(r.stdout.strip().splitlines()[-1] if r.stdout.strip() else r.stderr[-300:])
 sys.exit(1 if missing else 0)
